@@ -38,6 +38,27 @@ def main():
     assumptions, names, errors = lib.build(P.COQ_TARGET)
     rnd = random.Random(seed)
     out = lib.Outcome()
+    # watchdog: the streams of a quick run take one to two minutes, of a thorough run up to half an hour.  A run that is still going
+    # after ten times that is not going to end (a library call that never returns, a loop that never yields): the correspondence
+    # no longer checks, and that is reported instead of hanging
+    import threading
+    budget = float(os.environ.get("VERIF_BUDGET_S") or (1500 if a.tier == "quick" or a.replay else 5 * 3600))
+    def expired():
+        fr = sys._current_frames().get(threading.main_thread().ident)
+        where = "".join(traceback.format_stack(fr)[-12:]) if fr else "?"
+        what = ("correspondence: the streams of this run did not finish within %d s (a call into the library that never returns, or never "
+                "yields to the event loop); the main thread was at:\n%s" % (budget, where))
+        path = lib.write_replay(prop, {"property": prop, "kind": "unproved", "what_no_longer_checks": what, "theorems": names, "input": None, "stream": None})
+        try:
+            lib.write_evidence(prop, a.tier, seed, t0, {"obligations": max(1, len(names)), "discharged": max(1, len(names)), "theorems": names,
+                               "evaluations": out.evaluations, "distinct_nontrivial": len(out.nontrivial), "streams": out.streams, "build_errors": [what[:300]], "rule": P.RULE,
+                               "checker_cmd": f"make -C coq theories/Props/{P.COQ_TARGET}.vo", "exhaustive": False,
+                               "samples": out.samples[:8] or [{"note": "the run did not finish"}], "trusted_base": trusted, "assumptions_printed": assumptions}, P.ASSUMPTIONS, 1)
+        except Exception: pass
+        print(f"{prop}: no longer shown to hold: {what[:400]}")
+        print(f"VIOLATION property={prop} replay={path} no-failing-input-found", flush=True)
+        os._exit(1)
+    dog = threading.Timer(budget, expired); dog.daemon = True; dog.start()
     try:
         if a.replay:
             rp = lib.unjson(json.load(open(a.replay)))
